@@ -63,6 +63,7 @@ type fctx struct {
 	ovfCount int
 	ifaceFactsPending bool
 	capturedEntry map[string]*Value // closure units: entry values of captured locals (visible in old())
+	lastPos string // source position of the statement being executed (for messages only)
 }
 
 type modLoc struct {
@@ -91,7 +92,7 @@ func (fc *fctx) oblige(st *State, fr *frame, kind, name string, goal *Term) {
 		if len(conjuncts(goal)) > 1 {
 			n = fmt.Sprintf("%s.%d", full, i+1)
 		}
-		fc.obls = append(fc.obls, &Obligation{Name: n, Hyps: append([]*Term(nil), st.pc...), Goal: g, Kind: kind, Func: fc.name})
+		fc.obls = append(fc.obls, &Obligation{Name: n, Hyps: append([]*Term(nil), st.pc...), Goal: g, Kind: kind, Func: fc.name, Note: fc.lastPos})
 	}
 	st.assume(goal)
 }
